@@ -59,9 +59,12 @@ def gen_history(run_seed: int, cfg: dict) -> dict:
             return {"default_subset": sorted(r.sample(range(18), r.randint(1, 4)))}
         return {"fracs": [round(r.random(), 6) for _ in range(r.randint(1, 4))]}
 
-    def mk_setup():
+    hdate = {}
+
+    def mk_setup(date=None):
         e = f"e{len(handles)}" if (not handles or r.random() < 0.7) else r.choice(handles)
-        op = {"op": "SETUP", "e": e, "date": r.choice(dates)}
+        op = {"op": "SETUP", "e": e, "date": date or r.choice(dates)}
+        hdate[e] = op["date"]
         if r.random() < p_abort:
             op["abort"] = int(10 ** r.uniform(0, 4.78))
         elif r.random() < p_io:
@@ -109,25 +112,41 @@ def gen_history(run_seed: int, cfg: dict) -> dict:
             e = r.choice(handles)
             ops.append({"op": "REFORM", "e": e, "reform": {"group_frac": round(r.random(), 6), "leaf_frac": round(r.random(), 6), "op": r.choice(["mul", "mul", "add", "set"]), "x": r.choice([0.0, 0.5, 1.5, 2.0, 10.0, 100.25])}})
             n_reforms[e] += 1
+            # an in-place reform followed by a new set-up of the same date (and a simulation
+            # with it) is the pattern in which shared parameter objects show
+            if r.random() < 0.4 and e in hdate:
+                st = mk_setup(hdate[e])
+                st.pop("abort", None)
+                st.pop("iofault", None)
+                ops.append(st)
+                cp = mk_compute()
+                cp["e"] = st["e"]
+                cp.pop("abort", None)
+                ops.append(cp)
+                have_compute = True
         elif k == "REVERT":
             e = r.choice(handles)
             if n_reforms[e] > 0:
                 ops.append({"op": "REVERT", "e": e})
                 n_reforms[e] -= 1
         elif k == "REPLACE":
-            variant = r.choice([*userlib.REPLACEMENTS, f"copy:{round(r.random(), 6)}", f"copy:{round(r.random(), 6)}", f"derived:{round(r.random(), 6)}", f"derived:{round(r.random(), 6)}"])
+            variant = r.choice([*userlib.REPLACEMENTS, f"copy:{round(r.random(), 6)}", f"copy:{round(r.random(), 6)}", f"derived:{round(r.random(), 6)}", f"derived:{round(r.random(), 6)}", "module_path", "module_import", "module_object"])
             ops.append({"op": "REPLACE", "e": r.choice(handles), "variant": variant, "mode": r.choice(["dict", "list"])})
         elif k in ("ALIAS", "DEEPCOPY"):
             e2 = f"e{len(handles)}"
             src = r.choice(handles)
             ops.append({"op": k, "e2": e2, "e": src})
             handles.append(e2)
+            if src in hdate:
+                hdate[e2] = hdate[src]
             n_reforms[e2] = 0  # conservative: REVERT is only generated for reforms applied through this handle
         elif k == "REWRITE":
             which = r.choice(["all", "some", "some", "lib"])
             op = {"op": "REWRITE", "e": r.choice(handles), "which": which, "kind": r.choice(["func", "func", "source"])}
             if which == "some":
                 op["fracs"] = [round(r.random(), 6) for _ in range(r.randint(1, 25))]
+            if r.random() < p_abort:
+                op["abort"] = int(10 ** r.uniform(0, 4.3))
             ops.append(op)
         elif k == "BADDATA":
             ops.append({"op": "BADDATA", "e": r.choice(handles), "pop": r.choice(sorted(pops)), "fault": r.choice(["dup_pid", "self_ptr", "drop_col", "frac_int", "hh_var", "obj_dtype"]), "row": r.randrange(64), "form": r.choice(["frame", "dict"])})
@@ -467,7 +486,10 @@ def run_session(history: dict, opts: dict | None = None) -> dict:
                     else:
                         box = ParamsBox(copy.deepcopy(src.box.params), src.box.date)
                         box.reforms = list(src.box.reforms)
-                        envs[op["e2"]] = Env(box, copy.deepcopy(src.functions), list(src.repl))
+                        import sim.user_module as um
+
+                        # a module object in the user's list cannot be deep-copied; it is kept by reference
+                        envs[op["e2"]] = Env(box, copy.deepcopy(src.functions, {id(um): um}), list(src.repl))
                         ev["deepcopy"] = True
                 elif kind == "REFORM":
                     env = envs.get(op["e"])
@@ -513,7 +535,17 @@ def run_session(history: dict, opts: dict | None = None) -> dict:
                         ev["status"] = "skipped"
                     else:
                         fdict = _as_dict(env.functions)
-                        ev["outcome"] = do_rewrite(op, fdict)
+                        if "abort" in op:
+                            inj = seams.AbortInjector(op["abort"])
+                            try:
+                                with inj:
+                                    ev["outcome"] = do_rewrite(op, fdict)
+                            except seams.SimAbort:
+                                ev["faults"] = {"abort": {"k": op["abort"], "fired": True, "lines": inj.count}}
+                                raise
+                            ev["faults"] = {"abort": {"k": op["abort"], "fired": False, "lines": inj.count}}
+                        else:
+                            ev["outcome"] = do_rewrite(op, fdict)
                         ev["ref"] = {"kind": "REWRITE", "date": env.box.date, "op": _pure(op), "repl": [dict(x) for x in env.repl]}
                 else:
                     ev["status"] = "skipped"
@@ -550,11 +582,19 @@ def _as_dict(fa):
             out.update(x)
         elif callable(x):
             out[x.__name__] = x
+        else:  # path / import string / module object of sim.user_module
+            import inspect
+
+            import sim.user_module as um
+
+            out.update({n: f for n, f in inspect.getmembers(um, inspect.isfunction)})
     return out
 
 
 def _replace_in_list(base, op):
     merged = _as_dict(base)
+    if op["variant"].startswith("module_"):
+        return userlib.apply_replacement(base, op["variant"], "list")
     if op["variant"].startswith("copy:"):
         name = userlib.resolve_name(merged, op["variant"][5:])
         f = userlib.identical_copy(merged[name])
